@@ -1194,6 +1194,7 @@ namespace Pistache::Http
         if (transport && armed)
         {
             transport->disarmTimer(timerFd);
+            armed = false;
         }
     }
 
